@@ -85,6 +85,11 @@ def h_run(P, kinds, props, steps=3, mech="nbc", hibernation=True, L=2, generatio
                     P.oblige("C06.stopped_deme_frozen", digest(d) == pre["digests"][d.id])
                 if not d._active:
                     was_inactive.add(d.id)
+        if "C01" in props:
+            lo, hi = w.bounds[:, 0], w.bounds[:, 1]
+            P.oblige("C01.every_evaluated_point_in_box", all(all(lo[j] <= x[j] <= hi[j] for j in range(len(lo))) for (_, _, x, _) in w.log.entries))
+            P.oblige("C01.every_stored_genome_and_seed_in_box", all(bool(np.all(i.genome >= lo) and np.all(i.genome <= hi)) for _, d in tree.all_demes for g in d.history for i in g)
+                     and all(d._sprout_seed is None or bool(np.all(d._sprout_seed.genome >= lo) and np.all(d._sprout_seed.genome <= hi)) for _, d in tree.all_demes))
         if "C20" in props:
             _purity(P, w, tree)
         if "C09" in props:
